@@ -67,6 +67,10 @@ pub fn serve_script(seq: &[R], plan: &Plan) -> Outcome {
             steps.push(Step::Seg(bytes[last..c].to_vec()));
             last = c;
         }
+        if plan.pause_at == Some(c) {
+            // nothing arrives for longer than the configured timeout, then the rest follows
+            steps.push(Step::Timeout);
+        }
     }
     if last < limit {
         steps.push(Step::Seg(bytes[last..limit].to_vec()));
